@@ -1,9 +1,11 @@
 package main
 
 import (
+	"context"
 	"encoding/json"
 	"fmt"
 	"os"
+	"os/exec"
 	"reflect"
 	"runtime/debug"
 	"strings"
@@ -598,6 +600,24 @@ func cmdProgReplay(a args) {
 			fatal("no CASE lines in", f)
 		}
 	}
+	if res.Property == "C12" {
+		// chains of lets that double their value: the output grows as 2^n for an input of 21 bytes per let.
+		// Run in a child process: 29 lets (650 bytes) need several GB and more than half a minute.
+		src := letChain(29)
+		res.Checks["let_chain_probe"]++
+		res.Evaluations++
+		if exe, err := os.Executable(); err == nil {
+			ctx, cancel := context.WithTimeout(context.Background(), wdLimit)
+			cmd := exec.CommandContext(ctx, exe, "probe-letchain", "--depth", "29")
+			err := cmd.Run()
+			cancel()
+			if ctx.Err() != nil || err != nil {
+				res.violate(Violation{Property: "C12", Kind: "hang", InputB64: b64(src),
+					Reason: fmt.Sprintf("Compile did not return within %v on a %d-byte program (the value of each let doubles the previous one)", wdLimit, len(src)),
+					Extra: map[string]any{"call": "Compile", "probe": "let chain of 29"}})
+			}
+		}
+	}
 	res.write(out)
 }
 
@@ -727,4 +747,20 @@ func errorPositionChecks(text string) string {
 		return ""
 	}
 	return check(cerr, "Compile")
+}
+
+
+func letChain(n int) string {
+	var sb strings.Builder
+	sb.WriteString("let a0 = 1; ")
+	for i := 1; i <= n; i++ {
+		fmt.Fprintf(&sb, "let a%d = a%d + a%d; ", i, i-1, i-1)
+	}
+	fmt.Fprintf(&sb, "T | take a%d", n)
+	return sb.String()
+}
+
+func cmdProbeLetChain(a args) {
+	sql, err := pql.Compile(letChain(a.int("depth", 29)))
+	fmt.Println(len(sql), err)
 }
